@@ -64,6 +64,7 @@ type batchState struct {
 	toSliceArg  *eng.Term
 	toSliceRes  *eng.Term
 	cutInIter   bool
+	taskFailed  bool
 }
 
 func (s batchState) Key() string {
@@ -76,7 +77,7 @@ func (s batchState) Key() string {
 		sb.WriteString(b.Key() + ";")
 	}
 	sb.WriteString(s.toSliceArg.Key() + ">" + s.toSliceRes.Key())
-	fmt.Fprintf(&sb, "%v%v", s.cutInIter, s.submitted)
+	fmt.Fprintf(&sb, "%v%v%v", s.cutInIter, s.submitted, s.taskFailed)
 	return sb.String()
 }
 
@@ -225,13 +226,12 @@ func (m *BatchMon) OnEvent(c *eng.Ctx, ms eng.MState, ev *eng.Event) eng.MState 
 	case "task-enter":
 		s.inTask++
 		s.flagRead, s.flagReadOK, s.flagSet = nil, false, false
-		s.chainOpen = false
+		s.chainOpen, s.taskFailed = false, false
 	case "task-exit":
 		s.inTask--
 		chk("C09.R2,C11.R4", "task-exit", s.held == 0, "a batch task can return while still holding the mutex: the remaining tasks would block forever")
 		if m.Case.Stop && m.Case.Conc {
-			failed := s.chainOpen && (life.last == "Exec" || life.last == "Fb") && knownNonNil(c, life.lastErr)
-			if failed {
+			if s.taskFailed {
 				chk("C09.R2", "task-exit", s.flagSet, "in stop mode a task whose item failed must set the stop flag before it returns")
 			}
 		}
@@ -309,8 +309,10 @@ func (m *BatchMon) OnEvent(c *eng.Ctx, ms eng.MState, ev *eng.Event) eng.MState 
 	case "call":
 		switch ev.Class {
 		case "lock":
-			chk("C09.R2", "lock", s.held == 0, "mutex locked while already held (self-deadlock)")
-			s.held++
+			chk("C09.R2,C11.R4", "lock", s.held == 0, "mutex locked while already held (self-deadlock)")
+			if s.held < 2 {
+				s.held++
+			}
 		case "unlock":
 			chk("C09.R2", "unlock", s.held > 0, "mutex unlocked while not held")
 			if s.held > 0 {
@@ -323,10 +325,10 @@ func (m *BatchMon) OnEvent(c *eng.Ctx, ms eng.MState, ev *eng.Event) eng.MState 
 		case "cfg:GetBatchConcurrency":
 			if len(ev.Results) > 0 {
 				s.conc = ev.Results[0]
-				chk("C08.R6", "config-read", len(ev.Args) > 0 && ev.Args[0].Contains(m.Life.Node), "batch concurrency is not read from the node being run")
+				chk("C08.R6", "config-read", cfgRecv(ev) != nil && cfgRecv(ev).Contains(m.Life.Node), "batch concurrency is not read from the node being run")
 			}
 		case "cfg:GetBatchErrorHandling":
-			chk("C08.R6", "config-read", len(ev.Args) > 0 && ev.Args[0].Contains(m.Life.Node), "batch error handling is not read from the node being run")
+			chk("C08.R6", "config-read", cfgRecv(ev) != nil && cfgRecv(ev).Contains(m.Life.Node), "batch error handling is not read from the node being run")
 		case "pool.New":
 			s.poolEvents = true
 			if len(ev.Results) > 0 {
@@ -565,6 +567,9 @@ func (m *BatchMon) onStore(c *eng.Ctx, s batchState, life lifeState, ev *eng.Eve
 		case wrapsCtxErr(c, errT) && (life.cut || s.cutInIter):
 			// cancelled before or between attempts
 		case chainRan && lastFail:
+			if s.inTask > 0 {
+				s.taskFailed = true
+			}
 			if !errT.Unwraps(life.lastErr) {
 				note(&r.resBad, "slot receives error "+errT.Pretty()+" instead of the error of the item's last attempt/fallback "+life.lastErr.Pretty())
 			}
@@ -723,6 +728,17 @@ func zeroTripSlice(ev *eng.Event) *eng.Term {
 	}
 	if bound != nil && bound.K == eng.KLen {
 		return bound.A[0]
+	}
+	return nil
+}
+
+// cfgRecv returns the receiver of a configuration getter call (static or through an interface).
+func cfgRecv(ev *eng.Event) *eng.Term {
+	if ev.Recv != nil {
+		return ev.Recv
+	}
+	if len(ev.Args) > 0 {
+		return ev.Args[0]
 	}
 	return nil
 }
